@@ -11,3 +11,15 @@ def c18_clip_range(facts):
     """Image whose values all lie in [-0.5, 1.5] (so the clip heuristic fires) and some outside [0, 1]."""
     lo, hi = facts.get("min"), facts.get("max")
     return lo is not None and lo >= -0.5 and hi <= 1.5 and (lo < 0 or hi > 1)
+
+
+def c06_rank_deficient(facts):
+    """Input whose rank is below min(m, n), or a wide input whose leading m x m block is rank deficient."""
+    if not facts or "rank" not in facts:
+        return False
+    return facts["rank"] < min(facts["m"], facts["n"]) or (facts.get("wide") and not facts.get("leading_block_full_rank", True))
+
+
+def c05_repeated(facts):
+    """Some singular value is repeated within 1e-8 sigma_1 (zero counted, incl. the |m-n| structural zeros)."""
+    return bool(facts and facts.get("repeated"))
